@@ -43,11 +43,8 @@ def build_regex_string(tokens, invert=False):
     tokens = [_f for _f in tokens if _f]
     if not tokens:
         return None
-    if len(tokens) == 1:
-        s = tokens[0]
-    else:
-        s = f"(?:{'|'.join(tokens)})"
-    s = f"^{s}$"
+    # always group: a single token may itself be an alternation ("a|b")
+    s = f"^(?:{'|'.join(tokens)})$"
     if invert:
         s = f"(?!{s})"
     try:
